@@ -570,6 +570,11 @@ func genSnap(r *Rng, budget int, valid bool) gSnap {
 		s.Meta = gMeta{Gen: genBytes(r, pick(r, []int{0, 1, 8, 27})), Inst: genBytes(r, pick(r, []int{0, 1, 5, 12})),
 			Host: genBytes(r, pick(r, []int{0, 3, 9})), Txn: pick(r, txnVals), TS: pick(r, tsVals),
 			DBName: genBytes(r, pick(r, []int{0, 4, 4, 4, 7, 127, 128})), From: pick(r, txnVals)}
+		if r.Chance(6) {
+			// long metadata strings (host names, generation ids are free text): past the encoder's scratch buffer
+			s.Meta.Host = genBytes(r, pick(r, []int{300, 980, 1000, 1024, 2500}))
+			s.Meta.Gen = genBytes(r, pick(r, []int{27, 500, 1100}))
+		}
 		if !valid && r.Chance(20) {
 			s.Meta.Txn = pick(r, []int64{-1, -128, -1 << 63})
 		}
